@@ -24,6 +24,7 @@ Record cfun := mk_cfun {
   cf_guards : list (string * nat);    (* if (not G(param)) return SYMENGINE_RUNTIME_ERROR;  -- before the try block *)
   cf_asserts : list (string * nat);   (* SYMENGINE_ASSERT(is_a..(param)): type preconditions (compiled out in release) *)
   cf_casts : list (string * nat);     (* rcp_static_cast / down_cast of a parameter to class T: implied type precondition *)
+  cf_zguards : list (nat * N);        (* if (param == 0) { return <error code>; }  at the head of the protected part *)
   cf_wrap : wrapk;
   cf_out : outk;
   cf_tmpl : string;                   (* the forwarded C++ expression, parameters replaced by $ ; "" = other shape *)
